@@ -149,6 +149,48 @@ pub fn user2_dy<T: Num>(k: usize, x: T, y: T) -> T {
     }
 }
 
+// ---- the same computation on plain numbers (the crate's operators on T itself) ----
+pub fn run_plain<T: Num>(prog: &[Ins<T>]) -> Vec<T>
+where
+    for<'t> &'t T: RealRef<T>,
+{
+    let mut v: Vec<T> = Vec::with_capacity(prog.len());
+    let bop = |o: u8, x: T, y: T| -> T {
+        match o {
+            0 => x + y,
+            1 => x - y,
+            2 => x * y,
+            3 => x / y,
+            _ => x.pow(y),
+        }
+    };
+    for ins in prog {
+        let r = match ins {
+            Ins::Var(x) => x.clone(),
+            Ins::Const(c) => c.clone(),
+            Ins::Bin(o, a, b) => bop(*o, v[*a].clone(), v[*b].clone()),
+            Ins::BinC(o, a, c) => bop(*o, v[*a].clone(), c.clone()),
+            Ins::CBin(o, c, b) => bop(*o, c.clone(), v[*b].clone()),
+            Ins::Un(u, a) => {
+                let x = v[*a].clone();
+                match u {
+                    0 => -x,
+                    1 => x.sin(),
+                    2 => x.cos(),
+                    3 => x.exp(),
+                    4 => x.ln(),
+                    _ => x.sqrt(),
+                }
+            }
+            Ins::Sum(l) => l.iter().map(|&a| v[a].clone()).sum(),
+            Ins::User1(g, a) => user1_f(*g, v[*a].clone()),
+            Ins::User2(g, a, b) => user2_f(*g, v[*a].clone(), v[*b].clone()),
+        };
+        v.push(r);
+    }
+    v
+}
+
 // ---- the Record interpreter ----
 /// mode 0..=3: every operator through ownership form `mode` (0 ref(op)ref, 1 value(op)value,
 /// 2 value(op)ref, 3 ref(op)value; unary forms: mode % 2); mode 4: the form varies per instruction;
